@@ -133,6 +133,9 @@ Definition spec_position (files : list file) (p : N) : option position :=
 
 Inductive c11_case := C11 (files : list (list N * list N)) (positions : list N).
 
+Definition c11_offsets (n : N) : list N :=
+  filter (fun c => (n <=? 2000) || (c <? 200) || (n + 1 <? c + 200)) (N_range 0 (N.to_nat n + 2)).
+
 Definition c11_expected (c : c11_case) : obs :=
   match c with
   | C11 files positions =>
@@ -144,10 +147,11 @@ Definition c11_expected (c : c11_case) : obs :=
       (* FileSet.Position(p).String() and ErrorWithPosition for every probed position *)
       OL (map (fun p => OL [obs_outcome (fun o => OS (opt_position_string o)) (fs_position fs p);
                             obs_outcome OS (error_with_position fs [101] p)]) positions);
-      (* File.Position(c).String() for every file and every c in 0..len+1; File.Pos(c) *)
+      (* File.Position(c).String() for every file and every c in 0..len+1 (of a file longer than 2000 bytes: the
+         first and the last 200 of them); File.Pos(c) *)
       OL (map (fun f => OL (map (fun c => OL [obs_outcome (fun o => OS (opt_position_string o)) (file_position f c);
                                               ON (file_pos f c)])
-                                (map N.of_nat (seq 0 (length (f_data f) + 2))))) (fs_files fs))
+                                (c11_offsets (f_len f)))) (fs_files fs))
     ]
   end.
 
